@@ -253,7 +253,12 @@ Definition tgt_update (tr : tree noti) (n : noti) : ures :=
 (** operations the harness applies to the cache *)
 Inductive cop :=
 | CUpdate (n : noti)                 (* Cache.GnmiUpdate *)
-| CRemove (t : string) (now : Z).    (* Cache.Remove; [now] is what cache.Now returns *)
+| CRemove (t : string) (now : Z)     (* Cache.Remove; [now] is what cache.Now returns *)
+| CAdd (t : string)                  (* Cache.Add: a fresh, empty target under that name *)
+| CChurn (t : string).               (* a loop of Cache.Remove t; Cache.Add t (at least one
+                                        round): the net effect on the content.  Its feed (one
+                                        target-delete notification per round) is not modelled:
+                                        churn is used only while no stream is registered. *)
 
 Inductive cres := COk | CErr | CPanic | CMeta.
 
@@ -273,6 +278,8 @@ Definition cache_op (c : cache) (o : cop) : cache * list noti * cres :=
           end
       end
   | CRemove t now => (adel t c, [target_delete_noti t now], COk)
+  | CAdd t => (aset t None c, [], COk)
+  | CChurn t => (aset t None (adel t c), [], COk)
   end.
 
 (** Cache.HasTarget *)
